@@ -153,6 +153,9 @@ MESHES = {
     # 2 x 3 block of quads (faces share nodes diagonally) with a triangle cap
     'block': ([(i, j) for j in range(3) for i in range(4)] + [(1.5, 3)],
               [[0, 1, 5, 4], [1, 2, 6, 5], [2, 3, 7, 6], [4, 5, 9, 8], [5, 6, 10, 9], [6, 7, 11, 10], [9, 10, 12]]),
+    # three quads then two triangles: the short rows (with padding) are far from node 0
+    'qqqtt': ([(i, 0) for i in range(5)] + [(i, 1) for i in range(5)],
+              [[0, 1, 6, 5], [1, 2, 7, 6], [2, 3, 8, 7], [3, 4, 9], [3, 9, 8]]),
 }
 
 
@@ -171,7 +174,7 @@ def mesh_edges(faces):
 
 def ugrid(mesh='tq', *, start_index=0, fill='nan', transposed=False, with_edges=None,
           edge_dimension_attr=True, supply=(), node_x=None, node_y=None, face_xy=None,
-          data_vars=None, attrs=None, coords_as_coords=False, dtype='int32', edge_order=None):
+          data_vars=None, attrs=None, coords_as_coords=False, dtype='int32', edge_order=None, fill_value=None):
     """UGRID 2-D mesh.
 
     fill: 'nan' (float connectivity with NaN, as xarray decodes _FillValue),
@@ -185,7 +188,8 @@ def ugrid(mesh='tq', *, start_index=0, fill='nan', transposed=False, with_edges=
     ragged = any(len(f) != maxn for f in faces)
     if fill == 'none' and ragged:
         raise ValueError('ragged mesh needs a fill representation')
-    FILL = 999999
+    # fill_value: e.g. 0 with start_index=1 (the usual Fortran layout); must lie outside [start_index, start_index + n)
+    FILL = 999999 if fill_value is None else fill_value
     supply = set(supply)
     if with_edges is None:
         with_edges = bool(supply & {'edge_node', 'edge_face', 'face_edge'})
